@@ -1,2 +1,160 @@
-(* Properties_C19 — under construction *)
-From M4 Require Import Leaf.LeafSpecs.
+(* Properties/Properties_C19.v — C19 "Gray-code tables and word-level bit kernels are exactly right
+   (finite domains)".  Statements only; proofs in Leaf/LeafSpecs{,2,3,4}.v and Alg/GrayProofs.v.
+
+   Every statement except C19_gray_lookup is about the T1-TRANSLATED C function (Leaf/Gen_leaf.v,
+   regenerated from /repo by tools/translate.py on every run) executed by the CMini interpreter
+   ([interp leaf_prog], through [call_int] / [run_parity64] / [run_sp] / [run_build_code]):
+   [Ok r] means the interpreter found no undefined behaviour, no out-of-bounds access, no abort and
+   did not run out of fuel.  Data words are universally quantified; the finite control domains
+   (k <= 16, 65 x 64 masks, lengths 1..16, l <= 31) carry their bound in the statement. *)
+From Coq Require Import ZArith NArith List String Bool Lia.
+From M4 Require Import Base.Bits Lin.Mat Lin.Ops Leaf.CMini Leaf.Gen_leaf Alg.Gray Alg.GrayProofs
+  Leaf.LeafSpecs Leaf.LeafSpecs2 Leaf.LeafSpecs3 Leaf.LeafSpecs4.
+Import ListNotations.
+Local Open Scope Z_scope.
+
+(** * 1. Code book, k = 1..16: the model's code book is a Gray code book (permutation of [0,2^k),
+      consecutive entries differ exactly in bit inc[i]) and the translated m4ri_build_code
+      (+ m4ri_gray_code) writes exactly that code book into two uninitialised int arrays *)
+Theorem C19_codebook : forall k, (1 <= k <= 16)%nat ->
+  codebook_ok k /\
+  exists m, fst (fst (run_build_code k)) = Ok (None, m) /\
+            tables_are k m (snd (fst (run_build_code k))) (snd (run_build_code k)) (build_code k).
+Proof. exact LeafSpecs2.C19_codebook. Qed.
+Print Assumptions C19_codebook.
+
+(** ... so a table built by successive single-row additions returns, for every k-bit pattern x,
+    the sum of exactly the rows selected by the bits of x (every k, model of mzd_make_table) *)
+Theorem C19_gray_lookup : forall k M r T0 L0 x,
+  wf M -> (r + k <= nr M)%nat -> (2 ^ k <= List.length T0)%nat -> (2 ^ k <= List.length L0)%nat ->
+  nth 0 T0 0%N = 0%N -> Forall (bounded (radix * mwidth (nc M))) T0 ->
+  (x < 2 ^ N.of_nat k)%N ->
+  tlookup (make_table M r 0 k T0 L0) x = mul_row x (block_rows M r k).
+Proof. exact gray_lookup. Qed.
+Print Assumptions C19_gray_lookup.
+
+(** the translated m4ri_gray_code alone: every length 0..31, every non-negative int *)
+Theorem C19_gray_code : forall (l : nat) (number : N), (l <= 31)%nat -> (number < 2 ^ 31)%N ->
+  call_int "m4ri_gray_code" [Z.of_N number; Z.of_nat l] = Ok (Z.of_N (gray_code number l)).
+Proof. exact gen_gray_code_eq. Qed.
+Print Assumptions C19_gray_code.
+
+(** * 2. m4ri_parity64: bit i of the result is the parity of buf[i], for ALL 64 x 64-bit inputs *)
+Theorem C19_parity64 : forall buf, List.length buf = 64%nat -> Forall w64 buf ->
+  exists r, run_parity64 buf = Ok r /\ w64 r /\
+            forall i, (i < 64)%nat -> Z.testbit r (Z.of_nat i) = parity_of (nth i buf 0).
+Proof. exact parity64_spec. Qed.
+Print Assumptions C19_parity64.
+
+(** * 3. Bit masks: all 65 lengths x 64 offsets, UB-free domains as documented in misc.h *)
+Theorem C19_left_bitmask : forall n, 0 <= n <= 64 ->
+  exists r, call_int "stub_left_bitmask" [n] = Ok r /\ r = Z.ones (left_n n) /\
+            forall i, 0 <= i -> Z.testbit r i = (i <? left_n n).
+Proof. exact left_bitmask_spec. Qed.
+Print Assumptions C19_left_bitmask.
+
+Theorem C19_right_bitmask : forall n, 0 < n <= 64 ->
+  exists r, call_int "stub_right_bitmask" [n] = Ok r /\ r = Z.shiftl (Z.ones n) (64 - n) /\
+            forall i, 0 <= i -> Z.testbit r i = (64 - n <=? i) && (i <? 64).
+Proof. exact right_bitmask_spec. Qed.
+Print Assumptions C19_right_bitmask.
+
+(** the excluded argument really is undefined behaviour (shift by 64), as misc.h:291 says *)
+Theorem C19_right_bitmask_0_UB : is_UB (call_int "stub_right_bitmask" [0]) = true.
+Proof. exact right_bitmask_0_UB. Qed.
+Print Assumptions C19_right_bitmask_0_UB.
+
+Theorem C19_middle_bitmask_grid : forall n off, 0 <= n <= 64 -> 0 <= off < 64 ->
+  call_int "stub_middle_bitmask" [n; off] = Ok (Z.shiftl (Z.ones (left_n n)) off mod 2 ^ 64).
+Proof. exact middle_bitmask_grid. Qed.
+Print Assumptions C19_middle_bitmask_grid.
+
+Theorem C19_middle_bitmask : forall n off, 0 <= off < 64 -> 0 < n <= 64 - off ->
+  exists r, call_int "stub_middle_bitmask" [n; off] = Ok r /\ r = Z.shiftl (Z.ones n) off /\
+            forall i, 0 <= i -> Z.testbit r i = (off <=? i) && (i <? off + n).
+Proof. exact middle_bitmask_spec. Qed.
+Print Assumptions C19_middle_bitmask.
+
+Theorem C19_middle_is_left_and_right : forall n off, 0 <= off < 64 -> 0 < n <= 64 - off ->
+  exists m l r, call_int "stub_middle_bitmask" [n; off] = Ok m /\
+                call_int "stub_left_bitmask" [n + off] = Ok l /\
+                call_int "stub_right_bitmask" [64 - off] = Ok r /\ m = Z.land l r.
+Proof. exact middle_is_left_and_right. Qed.
+Print Assumptions C19_middle_is_left_and_right.
+
+(** * 4. m4ri_swap_bits reverses the 64 bits of EVERY word *)
+Theorem C19_swap_bits : forall v, w64 v ->
+  exists r, call_int "m4ri_swap_bits" [v] = Ok r /\ w64 r /\
+            forall i, 0 <= i < 64 -> Z.testbit r i = Z.testbit v (63 - i).
+Proof. exact swap_bits_spec. Qed.
+Print Assumptions C19_swap_bits.
+
+(** * 5. m4ri_spread_bits / m4ri_shrink_bits: every length 1..16, every strictly increasing Q in
+      range, every word; bit-level meaning and both inverse laws *)
+Theorem C19_spread_bits : forall from Q n base, (1 <= n <= 16)%nat -> sorted_in_range Q base n ->
+  exists r, run_sp "m4ri_spread_bits" from Q (Z.of_nat n) base = Ok r /\ w64 r /\
+    (forall j, (j < n)%nat -> Z.testbit r (nth j Q 0 - base) = Z.testbit from (Z.of_nat j)) /\
+    (forall i, 0 <= i -> (forall j, (j < n)%nat -> i <> nth j Q 0 - base) -> Z.testbit r i = false).
+Proof. exact spread_bits_spec. Qed.
+Print Assumptions C19_spread_bits.
+
+Theorem C19_shrink_bits : forall from Q n base, (1 <= n <= 16)%nat -> sorted_in_range Q base n ->
+  exists r, run_sp "m4ri_shrink_bits" from Q (Z.of_nat n) base = Ok r /\ w64 r /\
+    (forall j, (j < n)%nat -> Z.testbit r (Z.of_nat j) = Z.testbit from (nth j Q 0 - base)) /\
+    (forall i, Z.of_nat n <= i -> Z.testbit r i = false).
+Proof. exact shrink_bits_spec. Qed.
+Print Assumptions C19_shrink_bits.
+
+Theorem C19_spread_shrink_inverse : forall from Q n base, (1 <= n <= 16)%nat -> sorted_in_range Q base n ->
+  0 <= from < 2 ^ Z.of_nat n ->
+  exists s, run_sp "m4ri_spread_bits" from Q (Z.of_nat n) base = Ok s /\ w64 s /\
+            run_sp "m4ri_shrink_bits" s Q (Z.of_nat n) base = Ok from.
+Proof. exact spread_shrink_inverse. Qed.
+Print Assumptions C19_spread_shrink_inverse.
+
+Theorem C19_shrink_spread_inverse : forall y Q n base, (1 <= n <= 16)%nat -> sorted_in_range Q base n -> 0 <= y ->
+  (forall i, 0 <= i -> (forall j, (j < n)%nat -> i <> nth j Q 0 - base) -> Z.testbit y i = false) ->
+  exists s, run_sp "m4ri_shrink_bits" y Q (Z.of_nat n) base = Ok s /\ 0 <= s < 2 ^ Z.of_nat n /\
+            run_sp "m4ri_spread_bits" s Q (Z.of_nat n) base = Ok y.
+Proof. exact shrink_spread_inverse. Qed.
+Print Assumptions C19_shrink_spread_inverse.
+
+(** * 6. m4ri_lesser_LSB (all pairs of words) and log2_floor (all non-negative ints) *)
+Theorem C19_lesser_LSB : forall a b, w64 a -> w64 b ->
+  call_int "m4ri_lesser_LSB" [a; b] = Ok (if lsbi a <? lsbi b then 1 else 0).
+Proof. exact lesser_LSB_spec. Qed.
+Print Assumptions C19_lesser_LSB.
+
+Theorem C19_lsbi_meaning : forall w, 0 < w ->
+  0 <= lsbi w /\ Z.testbit w (lsbi w) = true /\ forall k, 0 <= k < lsbi w -> Z.testbit w k = false.
+Proof. exact lsbi_spec. Qed.
+Print Assumptions C19_lsbi_meaning.
+
+Theorem C19_log2_floor : forall v, 0 <= v < 2 ^ 31 -> call_int "log2_floor" [v] = Ok (Z.log2 v).
+Proof. exact log2_floor_spec. Qed.
+Print Assumptions C19_log2_floor.
+
+(** * Non-vacuity *)
+Example C19_ex_codebook_3 : fst (build_code 3) = [0; 1; 3; 2; 6; 7; 5; 4]%N /\ snd (build_code 3) = [0; 1; 0; 2; 0; 1; 0; 2]%nat.
+Proof. split; reflexivity. Qed.
+Example C19_ex_parity : run_parity64 (7 :: 1 :: repeat 0 62) = Ok 3.
+Proof. vm_compute. reflexivity. Qed.
+Example C19_ex_parity_hyp : List.length (7 :: 1 :: repeat 0 62) = 64%nat /\ Forall w64 (7 :: 1 :: repeat 0 62).
+Proof. split; [reflexivity|]. repeat constructor; unfold w64; lia. Qed.
+Example C19_ex_middle : call_int "stub_middle_bitmask" [3; 60] = Ok (Z.shiftl 7 60).
+Proof. vm_compute. reflexivity. Qed.
+Example C19_ex_swap : call_int "m4ri_swap_bits" [1] = Ok (2 ^ 63).
+Proof. vm_compute. reflexivity. Qed.
+Example C19_ex_sorted : sorted_in_range [3; 7; 64; 66] 3 4.
+Proof. exact sorted_example. Qed.
+Example C19_ex_spread : run_sp "m4ri_spread_bits" 11 [3; 7; 64; 66] 4 3 = Ok (1 + 16 + 2 ^ 63).
+Proof. vm_compute. reflexivity. Qed.
+Example C19_ex_shrink : run_sp "m4ri_shrink_bits" (1 + 16 + 2 ^ 63) [3; 7; 64; 66] 4 3 = Ok 11.
+Proof. vm_compute. reflexivity. Qed.
+Example C19_ex_lsb : call_int "m4ri_lesser_LSB" [4; 8] = Ok 1 /\ call_int "m4ri_lesser_LSB" [8; 4] = Ok 0 /\
+                     call_int "m4ri_lesser_LSB" [0; 4] = Ok 0 /\ call_int "m4ri_lesser_LSB" [4; 0] = Ok 1.
+Proof. repeat split; vm_compute; reflexivity. Qed.
+Example C19_ex_log2 : call_int "log2_floor" [1000] = Ok 9.
+Proof. vm_compute. reflexivity. Qed.
+Example C19_ex_gray : call_int "m4ri_gray_code" [5; 3] = Ok 7.
+Proof. vm_compute. reflexivity. Qed.
